@@ -243,8 +243,20 @@ pub struct DateOffset {
 
 impl DateOffset {
     #[inline]
-    pub fn apply(&self, mut date: NaiveDate) -> NaiveDate {
-        date += Duration::days(self.day_offset);
+    pub fn apply(&self, date: NaiveDate) -> NaiveDate {
+        // The result saturates to the bounds of representable dates, which are far away from
+        // the dates supported by opening hours expressions.
+        let saturated = if self.day_offset < 0 {
+            NaiveDate::MIN
+        } else {
+            NaiveDate::MAX
+        };
+
+        let Some(mut date) =
+            Duration::try_days(self.day_offset).and_then(|offset| date.checked_add_signed(offset))
+        else {
+            return saturated;
+        };
 
         match self.wday_offset {
             WeekDayOffset::None => {}
@@ -253,7 +265,11 @@ impl DateOffset {
                     - target.days_since(Weekday::Mon))
                     % 7;
 
-                date -= Duration::days(diff.into());
+                let Some(res) = date.checked_sub_signed(Duration::days(diff.into())) else {
+                    return NaiveDate::MIN;
+                };
+
+                date = res;
                 debug_assert_eq!(date.weekday(), target);
             }
             WeekDayOffset::Next(target) => {
@@ -261,7 +277,11 @@ impl DateOffset {
                     - date.weekday().days_since(Weekday::Mon))
                     % 7;
 
-                date += Duration::days(diff.into());
+                let Some(res) = date.checked_add_signed(Duration::days(diff.into())) else {
+                    return NaiveDate::MAX;
+                };
+
+                date = res;
                 debug_assert_eq!(date.weekday(), target);
             }
         }
